@@ -546,6 +546,15 @@ def reparse_sessions(g, n, sidp):
             ops += [{"op": "cnext"}] * r.randrange(1, k + 2)
         ops += [{"op": "cparse", "b": bad}] + [{"op": "cnext"}] * 3 + [{"op": "cparse", "b": b}, {"op": "cnext"}]
         yield ops
+        # a compound iterated to its end (last tile of an unknown type), then a misframed string for a typed parser
+        kind = r.choice(TYPED)
+        mn = MINLEN[kind]
+        wrong = hdr(2, False, 0, PT[kind], mn // 4 - 1 + r.choice([1, 4])) + g.bytes_(mn - 4)
+        comp = r.choice(T[:3]) + T[3]
+        lean = r.random() < 0.7
+        nx = {"op": "cnext", "lean": True} if lean else {"op": "cnext"}
+        yield [reset(f"{sidp}/after/{i}"), {"op": "cparse", "b": comp}, nx, nx] + ([nx] if r.random() < 0.5 else []) + [
+               {"op": "parse", "kind": kind, "b": wrong}, {"op": "parse_all", "b": wrong}]
         # the same for the single-packet parsers
         p1 = r.choice(T[1:])
         p2 = list(p1)
@@ -936,6 +945,7 @@ def c08(g, tier):
     yield from header_sweep(g, 4000 if q else 100000, "C08/hdr")
     yield from mutated_images(g, 800 if q else 20000, "C08/mut")
     yield from concat_sessions(g, 300 if q else 8000, "C08/concat")
+    yield from reparse_sessions(g, 200 if q else 5000, "C08/reparse")
     yield from big_inputs(g, "C08/big", 0)
 
 
@@ -1073,11 +1083,8 @@ def c14(g, tier):
     q = tier == "quick"
     r = g.r
     yield from c14_big(g)
-    for nt in (65536, 65540):      # more members than a 16-bit counter holds
-        calls = [{"c": "new"}] + [{"c": "add_packet", "v": {"kind": "bye", "calls": [{"c": "new"}], "pb": False}}] * nt
-        b = [0x80, 203, 0, 0] * nt
-        tl = tiles_of_partial(b)
-        yield [reset(f"C14/manymembers/{nt}"), {"op": "cparse", "b": b, "hint": {"ok": tl[1], "tiles": tl[0]}}] + [{"op": "cnext"}] * 6
+    # (a builder history of 65536 members is beyond what TLC folds in reasonable time; the 65536-tile datagrams of
+    #  C11 exercise the parser side of such compounds)
     for i in range(1200 if q else 30000):
         bad = None
         x = r.random()
@@ -1161,6 +1168,7 @@ def c18(g, tier):
     yield from noise(g, 400 if q else 10000, "C18/noise")
     yield from concat_sessions(g, 200 if q else 5000, "C18/concat")
     yield from fci_sessions(g, 1500 if q else 40000, "C18/fci")
+    yield from reparse_sessions(g, 200 if q else 5000, "C18/reparse")
     yield from big_inputs(g, "C18/big", 0)
 
 
